@@ -39,6 +39,48 @@ class Clock:
         return self.t
 
 
+import re as _re
+
+_SIMPLE_EXT = _re.compile(r'^permessage-deflate( *; *[a-z_]+(=[0-9]+)?)* *$')
+
+
+def peer_view(sc):
+    """The permessage-deflate parameters as the peer that sent the scripted reply understands them,
+       taken from the reply BYTES (never from lomond's parse): None = the reply has no extension header
+       (the peer will not inflate anything); dict(cnt, cw) for a plainly spelled single
+       `Sec-WebSocket-Extensions: permessage-deflate[; param[=n]]...` header; 'code' when the spelling is
+       anything else (then the canonicaliser falls back to what the code negotiated)."""
+    data = b''
+    for st in sc.env:
+        if st[0] == 'wait' and st[2] is not None and st[2][0] == 'data':
+            data += bytes(st[2][1])
+            if b'\r\n\r\n' in data:
+                break
+    head = data.split(b'\r\n\r\n', 1)[0]
+    vals = []
+    for ln in head.split(b'\r\n')[1:]:
+        if b':' in ln:
+            k, v = ln.split(b':', 1)
+            if k.strip().lower() == b'sec-websocket-extensions':
+                vals.append(v.strip().decode('latin-1'))
+        elif b'sec-websocket-extensions' in ln.lower():
+            return 'code'
+    if not vals:
+        return 'code' if b'sec-websocket-extensions' in head.lower() else None
+    if len(vals) != 1 or not _SIMPLE_EXT.match(vals[0]):
+        return 'code'
+    params = {}
+    for part in vals[0].split(';')[1:]:
+        k, _, v = part.strip().partition('=')
+        if k in params:
+            return 'code'
+        params[k] = v
+    cw = params.get('client_max_window_bits', '15') or '15'
+    if not cw.isdigit() or not 8 <= int(cw) <= 15:
+        return 'code'
+    return dict(cnt='client_no_context_takeover' in params, cw=int(cw))
+
+
 class World:
     """Everything one connection attempt can observe or affect."""
 
@@ -56,11 +98,16 @@ class World:
         self.kept = []
         self.zpeer = None   # zlib decompressor honouring the negotiated context (for Z: canonicalisation)
         self.deflate_cfg = None
+        self.peer_cfg = peer_view(scenario)   # what the SERVER's reply said about permessage-deflate, parsed here (not by lomond)
         self.raw = []       # every byte string `sendall` accepted, verbatim (C06 inflates the compressed frames itself)
 
     def log(self, tok):
         if self.recording:
             self.trace.append(tok)
+
+
+# error texts come from the OS / from other libraries: nothing may depend on them being free of format directives
+HOSTILE = ' {x} {0} {} %s %d {'
 
 
 class FakeSocket:
@@ -83,8 +130,10 @@ class FakeSocket:
         w.write_ctr += 1
         data = bytes(data)
         if k in w.sc.wfail:
-            w.log('WF:' + data.hex())
-            raise socket.error(104, 'simulated write failure')
+            # a compressed data frame that never reaches the peer: its zlib bytes are not canonical (the model has none)
+            z = len(data) >= 2 and (data[0] & 0x40) and (data[0] & 0x0f) in (1, 2) and (w.peer_cfg is not None) and not (w.peer_cfg == 'code' and w.deflate_cfg is None)
+            w.log('WF:' if z else 'WF:' + data.hex())
+            raise socket.error(104, 'simulated write failure' + HOSTILE)
         w.raw.append(data)
         w.log(w.canon_write(data))
 
@@ -98,9 +147,9 @@ class FakeSocket:
         if kind == 'eof':
             return 0
         if kind == 'sockerr':
-            raise socket.error(104, 'simulated reset')
+            raise socket.error(104, 'simulated reset' + HOSTILE)
         if kind == 'othererr':
-            raise ValueError('simulated non-socket failure')
+            raise ValueError('simulated non-socket failure' + HOSTILE)
         data = o[1]
         assert 0 < len(data) <= count, (len(data), count)
         buf[:len(data)] = data
@@ -132,7 +181,7 @@ class FakeSelector:
             raise ScriptEnd()
         step = w.env.pop(0)
         if step[0] == 'selerr':
-            raise OSError(9, 'simulated selector failure')
+            raise OSError(9, 'simulated selector failure' + HOSTILE)
         _, dt, outcome = step
         w.clock.t += float(dt)
         if dt:
@@ -157,7 +206,7 @@ def make_session_class(world):
             if c == 'sockfail':
                 self._socket_fail('unable to connect')
             if c == 'otherfail':
-                raise RuntimeError('simulated connect failure')
+                raise RuntimeError('simulated connect failure' + HOSTILE)
             sock = FakeSocket(world)
             world.session = self
             world.sock_open = True
@@ -174,8 +223,9 @@ class Scenario:
 
     def __init__(self, env, reactions=None, poll=5, prate=30, ptimeout=0, autopong=True,
                  ctimeout=30, conn='ok', wfail=(), compress=False, protocols=(), url='ws://example.com/chat',
-                 key_seed=0, variant='111110'):
+                 key_seed=0, variant='111110', zero=False):
         self.env = env
+        self.zero = zero        # a disabled timeout (0) is passed to connect() as 0.0 rather than as None (both mean 'disabled' in lomond's API)
         self.reactions = reactions or {}
         self.poll, self.prate, self.ptimeout = poll, prate, ptimeout
         self.autopong, self.ctimeout, self.conn = autopong, ctimeout, conn
@@ -448,7 +498,10 @@ def _canon_write_factory(world):
     def canon_write(data):
         # compressed data frames are canonicalised to their plaintext (the model does not produce
         # zlib's bytes): Z:<opcode>:<plaintext hex>
-        if len(data) >= 2 and (data[0] & 0x40) and (data[0] & 0x0f) in (1, 2) and world.deflate_cfg is not None:
+        pc = world.peer_cfg
+        if pc == 'code':
+            pc = None if world.deflate_cfg is None else dict(cnt=bool(world.deflate_cfg.reset_compress), cw=15)
+        if len(data) >= 2 and (data[0] & 0x40) and (data[0] & 0x0f) in (1, 2) and pc is not None:
             try:
                 import refcodec
                 fr = refcodec.decode_client_frames(data)
@@ -456,9 +509,9 @@ def _canon_write_factory(world):
                     return 'W!bad-compressed-frame:' + data.hex()
                 op, payload = _unmask_frame(data)
                 if world.zpeer is None:
-                    world.zpeer = zlib.decompressobj(-15)
+                    world.zpeer = zlib.decompressobj(-pc['cw'])
                 plain = world.zpeer.decompress(payload + b'\x00\x00\xff\xff')
-                if world.deflate_cfg.reset_compress:
+                if pc['cnt']:
                     world.zpeer = None
                 return 'Z:%d:%s' % (op, plain.hex())
             except Exception as e:  # noqa
@@ -533,9 +586,9 @@ def _run_one(ws, sc, world):
     try:
         sess_cls = make_session_class(world)
         kwargs = dict(session_class=sess_cls, poll=float(sc.poll), ping_rate=float(sc.prate),
-                      ping_timeout=(float(sc.ptimeout) if sc.ptimeout else None),
+                      ping_timeout=(float(sc.ptimeout) if (sc.ptimeout or sc.zero) else None),
                       auto_pong=sc.autopong,
-                      close_timeout=(float(sc.ctimeout) if sc.ctimeout else None))
+                      close_timeout=(float(sc.ctimeout) if (sc.ctimeout or sc.zero) else None))
         idx = 0
         mech = None
         for acts in sc.reactions.values():
